@@ -37,7 +37,10 @@ def expect_tlv(st, ty, ln, payload):
         return st.same(got, want)
 
     def be(name, n):
-        return [sel(name, n - 1 - k) for k in range(n)]
+        # big-endian lanes of the *value* the getter supplies.  The port model names the out-parameter's bytes by
+        # memory position; value byte j sits at memory position j on a little-endian host and n-1-j on a big-endian one
+        from ..mem import BIG_ENDIAN
+        return [sel(name, (k if BIG_ENDIAN else n - 1 - k)) for k in range(n)]
     if ty == 0x01:
         return all(own_mac_byte(st, b, i) for i, b in enumerate(payload)) and len(payload) == 6, 'host id = own MAC (6 bytes)'
     if ty == 0x02:
@@ -217,7 +220,7 @@ def linux_port(rep):
                                           ('lltd_port_get_link_speed_100bps', 'LinkSpeed', 'uint32_t *', 4, 100)):
         I, outs = run_getter(fname, osz, outty)
         off, n = fld(field)
-        src = mk_cat(tuple(('in', 'IFACE', off + i) for i in range(n)))
+        src = mem.reassemble([('in', 'IFACE', off + i) for i in range(n)])     # value of the field in the modelled byte order
         for st, v in outs:
             got = st.canon(mem.load_scalar(st, st.objs['OUT'], ZERO, ix.parse_type('unsigned long' if osz == 8 else 'unsigned int')))
             want = st.canon(src if div is None else ('div', src, C(div)))
@@ -231,8 +234,8 @@ def linux_port(rep):
     seen = set()
     for st, v in outs:
         r = st.dom(st.canon(v.t)).const()
-        med = mk_cat(tuple(('in', 'IFACE', moff + i) for i in range(mn)))
-        flg = mk_cat(tuple(('in', 'IFACE', foff + i) for i in range(fn_)))
+        med = mem.reassemble([('in', 'IFACE', moff + i) for i in range(mn)])
+        flg = mem.reassemble([('in', 'IFACE', foff + i) for i in range(fn_)])
         fdx = bit_known(st, med, 0x10)
         loop = bit_known(st, flg, 0x8)
         if r is None or fdx is None or loop is None:
